@@ -596,6 +596,9 @@ def extra_checks(tier, seed):
              "witness": {"problems": bad[:5]}, "replay": {"problems": bad[:5]}}]
 
 
+# checks whose proof units establish the callee contracts applied here (re-verified by this check, see main.dependency_units)
+DEPENDENCIES = ['C04', 'C05']
+
 META = {
     "level": "proof",
     "bounds": {"commands": "sample command classes covering every combination of send-twice / answer kind / device type, "
